@@ -476,7 +476,7 @@ class Completion:
             # Some code lines might be None, therefore get rid of that.
             relevant_code_lines = ['\n' if c is None else c for c in relevant_code_lines]
             return self._complete_code_lines(relevant_code_lines)
-        match = re.search(r'`([^`\s]+)', code_lines[-1])
+        match = re.search(r'`([^`\s]+)$', code_lines[-1])
         if match:
             return self._complete_code_lines([match.group(1)])
         return []
